@@ -14,6 +14,7 @@ func init() {
 			"(C14-d) policyTypes defaulting is one decision table with a single reader (explicit vs defaulted spellings), port sets are the library's canonical interval sets; " +
 			"(C14-pure) no unreviewed write of long-lived state on query paths (a memo with a coarse key breaks locality). " +
 			"(C14-e) a loop that skips elements whose key was seen before reads, after the guard, only element fields that are part of the key (a rule or ipBlock that differs elsewhere must not be dropped as a duplicate). " +
+			"(C14-match) every label-match verdict comes from the label-selector library (or the documented full-match comparison for representative peers), never from a hand-written comparison - the library is what makes `matchLabels {k: v}` and `k In [v]` (including the empty value and absent keys) the same selector. " +
 			"NOT decided: matchLabels vs single-value In (apimachinery), split CIDRs vs whole (library), the relations on actual outputs."
 		rules.MonotoneAccumulators(p, r, "C14-a")
 		rules.DefaultIsTop(p, r, "C14-b")
@@ -23,5 +24,6 @@ func init() {
 		rules.QueryPathWrites(p, r, "C14-pure")
 		rules.SeenSetKeyCompleteness(p, r, "C14-e")
 		rules.UnconditionalIPBlockContribution(p, r, "C14-f")
+		rules.LabelMatchingByLibrary(p, r, "C14-match")
 	})
 }
